@@ -95,7 +95,7 @@ def wire(points_after_filter, budget, records, accounting="fixed"):
 # ----------------------------------------------------------------------------- generators
 
 def gen_points(rng):
-    kind = rng.choice(["smooth", "noisy", "polyline", "collinear", "adjacent-repeat", "closing", "revisit", "two", "near-duplicate"])
+    kind = rng.choice(["smooth", "noisy", "polyline", "collinear", "adjacent-repeat", "closing", "revisit", "two", "near-duplicate", "hook"])
     n = rng.randint(2, 60) if rng.random() < 0.3 else rng.randint(2, 14)
     integer = rng.random() < 0.5
 
@@ -110,6 +110,22 @@ def gen_points(rng):
         for i in range(n):
             x, y = oc.bern_pt(ctrl, F(i, max(1, n - 1)))
             pts.append((q(float(x) + rng.uniform(-noise, noise)), q(float(y) + rng.uniform(-noise, noise))))
+    elif kind == "hook":
+        # a gentle stroke that begins (or ends) with a short step backwards: the second sample lies BEHIND the first, beyond the end of any
+        # curve fitted from the first sample onwards
+        ctrl = oc.rand_seg_pts(rng, 4, "float")
+        m = max(5, min(n, 9))
+        pts = []
+        for i in range(m):
+            x, y = oc.bern_pt(ctrl, F(i, m - 1))
+            pts.append((q(float(x)), q(float(y))))
+        d = (pts[0][0] - pts[1][0], pts[0][1] - pts[1][1])
+        L = math.hypot(*d) or 1.0
+        k = rng.choice([3.0, 5.0, 8.0, 12.0])
+        back = (q(pts[0][0] + d[0] / L * k), q(pts[0][1] + d[1] / L * k + rng.choice([0.0, -2.0, 1.0])))
+        pts.insert(1, back)
+        if rng.random() < 0.3:
+            pts.reverse()
     elif kind == "collinear":
         a = (q(rng.uniform(-100, 100)), q(rng.uniform(-100, 100)))
         d = (rng.choice([1.0, 2.0, -3.0]), rng.choice([0.0, 1.0, -2.0]))
@@ -149,6 +165,10 @@ def gen_points(rng):
         return gen_points(rng)
     error = rng.choice([0.01, 0.1, 1.0, 50.0, 1e4, 10 ** rng.uniform(-2, 4)])
     ct = rng.choice([0.1, 1.0, 20.0, 100.0, rng.uniform(0.1, 100)])
+    if kind == "hook" and rng.random() < 0.7:
+        # tolerance just below the length of the step backwards: the hooked sample is too far from a curve that starts at the first sample,
+        # but close to that curve's continuation beyond its end
+        error, ct = (0.8 * k) ** 2, 20.0
     budget = rng.choice([len(pts), len(pts) + 3, 2 * len(pts)])
     return {"points": pts, "error": error, "ct": ct, "budget": budget, "kind": kind}
 
@@ -268,7 +288,23 @@ def search(ctx, budget):
                 break
         if len(samples) < 3:
             samples.append(g)
-    return {"evaluations": i + 1, "distinct_nontrivial": nontriv, "kinds": kinds, "samples": samples}, viol
+    # sharp small-integer zig-zags with a corner tolerance far below the point spacing: cheap (4 .. 6 points), so many of them — the
+    # re-fit loop's corner / hook outcomes are rare (a few per thousand)
+    extra = 0
+    for j in range(1600 * ctx.scale * budget if len(viol) < 5 else 0):
+        m = rng.randint(4, 6)
+        pts = [(float(rng.randint(0, 20)), float(rng.randint(0, 20))) for _ in range(m)]
+        if len(set(pts)) < m:
+            continue
+        g = {"points": pts, "error": rng.choice([9.0, 16.0, 25.0, 36.0]), "ct": rng.choice([0.1, 0.5]), "budget": rng.choice([m, m + 2, 2 * m]), "kind": "zigzag"}
+        extra += 1
+        msg = check(g)
+        if msg:
+            viol.append({"what": msg, "input": g})
+            if len(viol) >= 5:
+                break
+    kinds["zigzag"] = extra
+    return {"evaluations": i + 1 + extra, "distinct_nontrivial": nontriv + extra, "kinds": kinds, "samples": samples}, viol
 
 
 def classify(v, entry):
